@@ -147,7 +147,11 @@ class Printer(PrinterBase):
         return f"{typ} {var} = {value};"
 
     def make_constant(self, like, value):
-        return f"ScalarLike({like.ref}, {value})"
+        # print the operand through tostring: when it is an expression that has
+        # not been printed yet, its assignment is emitted first (or, when it
+        # needs no reference, it is printed inline) instead of naming a
+        # variable that is defined later or never
+        return f"ScalarLike({self.tostring(like)}, {value})"
 
     def make_argument(self, arg):
         typ = self.get_type(arg)
